@@ -167,6 +167,14 @@ func (l *Ledger) WriteAnchor(anchor string, _ []*protocol.AnchorDocument, refs [
 	return nil
 }
 
+// AppendNS adds a transaction under another namespace.
+func (l *Ledger) AppendNS(ns, anchor string, version uint64) *txn.SidetreeTxn {
+	t := l.Append(anchor, nil, version)
+	t.Namespace = ns
+
+	return t
+}
+
 // Append adds a transaction (also used by Byzantine writers).
 func (l *Ledger) Append(anchor string, refs []*operation.Reference, version uint64) *txn.SidetreeTxn {
 	seq := len(l.Txns)
